@@ -97,6 +97,12 @@ type Profile struct {
 	MaxFrontier int64
 	Deadline    time.Duration // internal time cap (0 = none); hitting it ends the run with Exhaustive=false
 	Workers     int
+	// ContinueRoots / ContinueDepth: after the exhaustive levels, the ContinueRoots states of the last
+	// level with the smallest hashes serve as further roots, from which the search goes on at full
+	// width for ContinueDepth more levels (bounded exhaustive search from more starting points; the
+	// states reached there are longer histories than the exhaustive bound covers).
+	ContinueRoots int
+	ContinueDepth int
 	// PostStep, if set, is called on every transition after the oracles (differential checks).
 	PostStep func(c *Ctx, pre *world.World, act world.Action, post *world.World, legs []*world.Leg)
 }
@@ -151,6 +157,10 @@ type Result struct {
 	Samples        [][]string
 	Wall           time.Duration
 	SeedFailures   []string
+	// continuation phase
+	ContinueRoots          int
+	ContinueDepthCompleted int
+	ContinueStates         int64
 }
 
 type visited struct {
@@ -240,8 +250,15 @@ func Run(p *Profile) (*Result, error) {
 	if maxFrontier == 0 {
 		maxFrontier = 4_000_000
 	}
-	for depth := 0; depth < p.Depth && len(frontier) > 0; depth++ {
+	totalDepth := p.Depth
+	if p.ContinueRoots > 0 {
+		totalDepth += p.ContinueDepth
+	}
+	for depth := 0; depth < totalDepth && len(frontier) > 0; depth++ {
 		next := make([][]*node, workers)
+		// the last exhaustive level keeps only the candidates for continuation roots
+		selecting := p.ContinueRoots > 0 && depth+1 == p.Depth
+		roots := make([][]*node, workers)
 		var newStates int64
 		statesSoFar := res.States
 		var wg sync.WaitGroup
@@ -300,7 +317,22 @@ func Run(p *Profile) (*Result, error) {
 								o.State(c, post)
 							}
 							ns := atomic.AddInt64(&newStates, 1)
-							if depth+1 < p.Depth && atomic.LoadInt32(&noDeeper) == 0 {
+							if selecting {
+								// keep the ContinueRoots smallest hashes seen by this worker
+								r := roots[wi]
+								if len(r) < p.ContinueRoots || lessHash(ph, r[len(r)-1].h) {
+									nn.enc, nn.meta = post.Encode(), post.Meta
+									pos := sort.Search(len(r), func(i int) bool { return lessHash(ph, r[i].h) })
+									r = append(r, nil)
+									copy(r[pos+1:], r[pos:])
+									r[pos] = nn
+									if len(r) > p.ContinueRoots {
+										r[len(r)-1].enc = nil
+										r = r[:len(r)-1]
+									}
+									roots[wi] = r
+								}
+							} else if depth+1 < totalDepth && atomic.LoadInt32(&noDeeper) == 0 {
 								if ns > maxFrontier || statesSoFar+ns > maxStates {
 									atomic.StoreInt32(&noDeeper, 1)
 								} else {
@@ -326,8 +358,26 @@ func Run(p *Profile) (*Result, error) {
 			}
 			break
 		}
-		res.DepthCompleted = depth + 1
-		if atomic.LoadInt32(&noDeeper) != 0 && depth+1 < p.Depth {
+		if depth < p.Depth {
+			res.DepthCompleted = depth + 1
+		} else {
+			res.ContinueDepthCompleted = depth + 1 - p.Depth
+			res.ContinueStates += newStates
+		}
+		if selecting {
+			var all []*node
+			for _, r := range roots {
+				all = append(all, r...)
+			}
+			sort.Slice(all, func(i, j int) bool { return lessHash(all[i].h, all[j].h) })
+			if len(all) > p.ContinueRoots {
+				all = all[:p.ContinueRoots]
+			}
+			res.ContinueRoots = len(all)
+			frontier = all
+			continue
+		}
+		if atomic.LoadInt32(&noDeeper) != 0 && depth+1 < totalDepth {
 			res.Exhaustive = false
 			res.CapHit = fmt.Sprintf("state/frontier cap (%d states, %d per level) hit: the %d new states of depth %d were all checked but not expanded", maxStates, maxFrontier, newStates, depth+1)
 			break
@@ -379,6 +429,15 @@ func Run(p *Profile) (*Result, error) {
 	sort.SliceStable(res.Violations, func(i, j int) bool { return res.Violations[i].Depth < res.Violations[j].Depth })
 	res.Wall = time.Since(start)
 	return res, nil
+}
+
+func lessHash(a, b [32]byte) bool {
+	for k := range a {
+		if a[k] != b[k] {
+			return a[k] < b[k]
+		}
+	}
+	return false
 }
 
 // NewCtx returns a stand-alone oracle context (used by replays and single-step enumerations).
